@@ -302,12 +302,11 @@ func ruleR15b(h *H) {
 		})
 		return out
 	}
-	wf := sprintfFormat(keyFn)
-	if len(wf) != 1 {
-		h.Anchor(rule, "the Sprintf format of the index key function")
+	W := indexWriteFormat(keyFn)
+	if W == "" {
+		h.Anchor(rule, "the format of the keys built by the index key function")
 		return
 	}
-	W := wf[0]
 	// range prefix formats used by the query side: Sprintf formats in package server that are a proper prefix of W
 	rset := map[string]bool{}
 	for _, fn := range h.P.Funcs {
@@ -315,7 +314,13 @@ func ruleR15b(h *H) {
 			continue
 		}
 		for _, f := range sprintfFormat(fn) {
-			if strings.Contains(f, "idx") {
+			if strings.Contains(f, "idx") && f != W {
+				rset[f] = true
+			}
+		}
+		// ... or a helper that builds the prefix by concatenation
+		if fn.Signature.Results().Len() == 1 && fn.Signature.Results().At(0).Type().String() == "string" && len(fn.Blocks) > 0 {
+			if f := indexWriteFormat(fn); f != "" && f != W && strings.Contains(f, "idx") && strings.Contains(f, "%s") {
 				rset[f] = true
 			}
 		}
@@ -367,6 +372,58 @@ func ruleR15b(h *H) {
 	}
 }
 
+// indexWriteFormat: the layout of the strings a key-building function returns, as a
+// format ("%s" for every non-literal part), whether it is written with Sprintf, with
+// concatenation or through a helper; "" when the function has several returns or the
+// value cannot be evaluated symbolically.
+func indexWriteFormat(fn *ssa.Function) string {
+	var rets []*ssa.Return
+	ir.Instrs(fn, func(in ssa.Instruction) {
+		if r, ok := in.(*ssa.Return); ok {
+			rets = append(rets, r)
+		}
+	})
+	if len(rets) != 1 || len(ir.ReturnValues(rets[0])) != 1 {
+		return ""
+	}
+	f, ok := ir.SymFormat(ir.ReturnValues(rets[0])[0])
+	if !ok || !strings.Contains(f, "%s") {
+		return ""
+	}
+	return f
+}
+
+// tailCallee: `return g(...)` — every result of the return is the corresponding result of
+// one call; the callee (nil otherwise).
+func tailCallee(ret *ssa.Return) *ssa.Function {
+	vals := ir.ReturnValues(ret)
+	if len(vals) == 0 {
+		return nil
+	}
+	var call *ssa.Call
+	for i, v := range vals {
+		switch x := ir.Canon(v).(type) {
+		case *ssa.Extract:
+			c, ok := x.Tuple.(*ssa.Call)
+			if !ok || x.Index != i || (call != nil && c != call) {
+				return nil
+			}
+			call = c
+		case *ssa.Call:
+			if len(vals) != 1 {
+				return nil
+			}
+			call = x
+		default:
+			return nil
+		}
+	}
+	if call == nil || call.Block() != ret.Block() {
+		return nil // the results are inspected before they are returned: not a plain hand-through
+	}
+	return call.Call.StaticCallee()
+}
+
 func constString(k *ssa.Const) string {
 	s := k.Value.ExactString()
 	if u, err := unquote(s); err == nil {
@@ -401,55 +458,92 @@ func ruleR15c(h *H) {
 		n++
 		h.Fn(ir.FuncName(fn))
 		i := 0
-		ir.Instrs(fn, func(in ssa.Instruction) {
-			ret, ok := in.(*ssa.Return)
-			if !ok || in.Block() == fn.Recover {
-				return
+		root := fn
+		region := helperFuncs(root)
+		restore := bindRegion(root)
+		inRegion := map[*ssa.Function]bool{}
+		for _, g := range region {
+			inRegion[g] = true
+		}
+		// the parts of the walk whose results the root hands through unchanged
+		delegated := map[*ssa.Function]bool{root: true}
+		for pass := 0; pass < 3; pass++ {
+			for _, g := range region {
+				if !delegated[g] {
+					continue
+				}
+				ir.Instrs(g, func(in ssa.Instruction) {
+					if ret, ok := in.(*ssa.Return); ok {
+						if g2 := tailCallee(ret); g2 != nil && inRegion[g2] {
+							delegated[g2] = true
+						}
+					}
+				})
 			}
-			v := ir.ReturnValues(ret)[0]
-			if k, isK := v.(*ssa.Const); isK && k.Value != nil && constString(k) == "" {
-				return
+		}
+		for _, fn := range region {
+			fn := fn
+			if !delegated[fn] {
+				continue
 			}
-			// error returns hand out nothing
-			vals := ir.ReturnValues(ret)
-			if !valueMayBeNilAt(vals[len(vals)-1], in) {
-				return
+			if fn != root {
+				h.Fn(ir.FuncName(fn))
 			}
-			i++
-			good := false
-			bad := "a primary key can be returned for an iterator position that was not checked to lie inside the requested index: the walk over the whole key space leaks records of neighbouring indexes"
-			for _, g := range ir.Guards(in) {
-				cond, taken := g.Cond, g.Taken
-				for {
-					if u, isU := cond.(*ssa.UnOp); isU && u.Op == token.NOT {
-						cond, taken = u.X, !taken
+			ir.Instrs(fn, func(in ssa.Instruction) {
+				ret, ok := in.(*ssa.Return)
+				if !ok || in.Block() == fn.Recover {
+					return
+				}
+				v := ir.ReturnValues(ret)[0]
+				if k, isK := v.(*ssa.Const); isK && k.Value != nil && constString(k) == "" {
+					return
+				}
+				// a result handed through from an extracted part of the walk is judged there
+				if g := tailCallee(ret); g != nil && inRegion[g] && g != fn {
+					return
+				}
+				// error returns hand out nothing
+				vals := ir.ReturnValues(ret)
+				if !valueMayBeNilAt(vals[len(vals)-1], in) {
+					return
+				}
+				i++
+				good := false
+				bad := "a primary key can be returned for an iterator position that was not checked to lie inside the requested index: the walk over the whole key space leaks records of neighbouring indexes"
+				for _, g := range ir.Guards(in) {
+					cond, taken := g.Cond, g.Taken
+					for {
+						if u, isU := cond.(*ssa.UnOp); isU && u.Op == token.NOT {
+							cond, taken = u.X, !taken
+							continue
+						}
+						break
+					}
+					call, isCall := cond.(*ssa.Call)
+					if !isCall || !taken {
 						continue
 					}
-					break
-				}
-				call, isCall := cond.(*ssa.Call)
-				if !isCall || !taken {
-					continue
-				}
-				f := call.Call.StaticCallee()
-				if f == nil || f.Name() != "HasPrefix" || f.Pkg == nil || f.Pkg.Pkg.Path() != "strings" {
-					continue
-				}
-				fromIter := ir.DependsOn(call.Call.Args[0], func(x ssa.Value) bool {
-					c, ok := x.(*ssa.Call)
-					return ok && c.Call.IsInvoke() && c.Call.Method.Name() == "Key"
-				})
-				fromIndexName := ir.DependsOn(call.Call.Args[1], func(x ssa.Value) bool { return isMsgField(x, "GetRequest", "SecondaryIndexName") })
-				if fromIter && fromIndexName {
-					if ok, w := indexPrefixTerminated(h, call.Call.Args[1]); ok {
-						good = true
-					} else {
-						bad = w
+					f := call.Call.StaticCallee()
+					if f == nil || f.Name() != "HasPrefix" || f.Pkg == nil || f.Pkg.Pkg.Path() != "strings" {
+						continue
+					}
+					fromIter := ir.DependsOn(call.Call.Args[0], func(x ssa.Value) bool {
+						c, ok := x.(*ssa.Call)
+						return ok && c.Call.IsInvoke() && c.Call.Method.Name() == "Key"
+					})
+					fromIndexName := ir.DependsOn(call.Call.Args[1], func(x ssa.Value) bool { return isMsgField(x, "GetRequest", "SecondaryIndexName") })
+					if fromIter && fromIndexName {
+						if ok, w := indexPrefixTerminated(h, call.Call.Args[1]); ok {
+							good = true
+						} else {
+							bad = w
+						}
 					}
 				}
-			}
-			h.Verdict(good, rule, fmt.Sprintf("index get return #%d in %s", i, ir.FuncName(fn)), h.pos(in), "guarded by HasPrefix(iterator key, requested index prefix ending in the delimiter that follows the index name in stored keys)", bad)
-		})
+				h.Verdict(good, rule, fmt.Sprintf("index get return #%d in %s", i, ir.FuncName(root)), h.pos(in), "guarded by HasPrefix(iterator key, requested index prefix ending in the delimiter that follows the index name in stored keys)", bad)
+			})
+		}
+		restore()
 	}
 	if n == 0 {
 		h.Anchor(rule, "the index comparison-get walk (DB.KeyIterator in a function taking *proto.GetRequest)")
@@ -510,11 +604,13 @@ func ruleR15d(h *H) {
 			}
 		}
 		handled := map[int64]bool{}
-		for _, c := range ir.EdgeCmps(fn) {
-			for _, cc := range []ir.Cmp{c, c.Flip()} {
-				if cc.Op == token.EQL && isMsgField(cc.L, "GetRequest", "ComparisonType") {
-					if k, ok := ir.Canon(cc.R).(*ssa.Const); ok && k.Value != nil {
-						handled[k.Int64()] = true
+		for _, g := range helperFuncs(fn) {
+			for _, c := range ir.EdgeCmps(g) {
+				for _, cc := range []ir.Cmp{c, c.Flip()} {
+					if cc.Op == token.EQL && isMsgField(cc.L, "GetRequest", "ComparisonType") {
+						if k, ok := ir.Canon(cc.R).(*ssa.Const); ok && k.Value != nil {
+							handled[k.Int64()] = true
+						}
 					}
 				}
 			}
@@ -539,16 +635,7 @@ func indexPrefixTerminated(h *H, prefix ssa.Value) (bool, string) {
 	if keyFn == nil {
 		return false, "index key function not found"
 	}
-	W := ""
-	ir.Instrs(keyFn, func(in ssa.Instruction) {
-		if c := ir.CallOf(in); c != nil {
-			if f := c.StaticCallee(); f != nil && f.Name() == "Sprintf" && f.Pkg != nil && f.Pkg.Pkg.Path() == "fmt" {
-				if k, ok := c.Args[0].(*ssa.Const); ok && k.Value != nil {
-					W = constString(k)
-				}
-			}
-		}
-	})
+	W := indexWriteFormat(keyFn)
 	first := strings.Index(W, "%s")
 	if first < 0 || first+2 >= len(W) {
 		return false, "cannot read the layout of stored index keys"
